@@ -11,7 +11,7 @@ PROFILES = {
     "C01": profile(scan=0.5, reads_after=(1, 4), zones=ALL_ZONES,
                    flush_vary=True, long_strings=0.03, compact=0.3,
                    numbers=["small", "small", "boundary"],
-                   alphabets=["plain", "plain", "reserved"],
+                   alphabets=["plain", "plain", "reserved", "fuzz"],
                    mix={"read": 8, "getter": 0, "bulk": 0.15}),
     "C02": profile(modes=["r+", "r+", "r+", "w+"], zones=ALL_ZONES,
                    flush_vary=True, alphabets=["plain", "plain", "hostile"],
@@ -28,7 +28,8 @@ PROFILES = {
                    len=(3, 60)),
     "C07": profile(scan=0.5, read_vs_getter=0.1, zones=ALL_ZONES,
                    flush_vary=True, compact=0.3,
-                   alphabets=["plain", "hostile", "hostile", "reserved"],
+                   alphabets=["plain", "hostile", "hostile", "reserved",
+                              "fuzz"],
                    mix={"read": 0, "getter": 8}, reads_after=(1, 4)),
     "C08": profile(time="rich", zones=ALL_ZONES,
                    update_args=["time"], scan=0.4,
